@@ -102,7 +102,7 @@ def _absorb(run: Run, results, stats, domain):
         stats["pairs"].update((l[0], l[1]) for l in prog)
         if res["nontrivial"]:
             run.nontrivial_case(json.dumps(prog))
-        if res["summary"] and len(prog) >= 3:
+        if res["summary"] and len(prog) >= 3 and len({l[0] for l in prog}) >= 3:
             run.sample({"domain": domain, **res["summary"]}, limit=6)
         for sig, what in res["violations"]:
             stats["viol:" + sig["clause"] + ":" + sig["cause"]] += 1
